@@ -362,7 +362,7 @@ PROPERTY = {
                    "from the AST with the backend opaque, for every value of E, f_k and the coefficient. The numerical statements about simulated energies are not decidable by contracts "
                    "(floating-point state simulation, eigenvalues): bounded native contract "
                    "runs: the solver's methods are executed and compared with an independent evaluation (exact state of the ansatz circuit by tverif.qsem, matrix of the qubit operator "
-                   "by openfermion) for random parameter vectors, every encoding (lower / upper case), deflation on and off. Unbounded: the deflation loop for ANY number of deflation circuits (P1, loop cut). Bounded histories on one solver object against freshly built solvers (O4).",
+                   "by openfermion) for random parameter vectors, every encoding (lower / upper case), deflation on and off. Unbounded: the deflation loop for ANY number of deflation circuits (P1, loop cut). Bounded histories on one solver object against freshly built solvers (O4). Penalty terms: the solver's Hamiltonian equals the encoded H + sum mu (O - v)^2 under its own encoding and ordering (O5, VQE and SA-VQE); observables handed to operator_expectation by name, as FermionOperator or as QubitOperator (O2); ansatz handed over as a plain Circuit.",
     "bounds": {"quick": "12 (molecule, ansatz, encoding, ordering) configurations on H2 / H4+ x 2 parameter vectors; N, Sz, S^2 for 8 configurations", "thorough": "13 configurations x 5 vectors"},
     "assumptions": ["cirq simulator, PySCF, openfermion executed natively; tolerance 1e-8", "variational bound: checked against numpy eigenvalues"],
     "trusted_base": ["tverif AST interpreter (only to record the functions exercised)", "tverif.qsem (independent state evaluation)", "cirq", "pyscf", "openfermion", "numpy"],
